@@ -961,3 +961,59 @@ def merge_cvrs_post(S, I, variant):
         S.holds(f"[{o.attrs['id']}] keeps the common tally pool",
                 (o.attrs["tally_pool"] is None) if not labels else (o.attrs["tally_pool"] is not None and o.attrs["tally_pool"] == labels[0]
                                                                      and type(o.attrs["tally_pool"]) == type(labels[0])))
+
+
+# ------------------------------------------------------------------ C16c: Assertion.find_sample_size, hypothetical data (unbounded N)
+
+@script(["C16"], "Assertion.find_sample_size/comparison data (symbolic N, rates)", variants=(("both",), ("rate1",), ("rate2",), ("none",)))
+def find_sample_size_comparison(S, I, variant):
+    N = S.integer("N", lo=1)
+    u_a = S.real("u_a", lo=Fraction(1, 2))
+    v = S.real("margin", lo_strict=0)
+    ctx().assume(xcmp("<=", v, xsub(xmul(XR.const(2), u_a), ONE)))
+    s1 = S.integer("step_1", lo=1)       # int(1/rate_1)
+    s2 = S.integer("step_2", lo=1)       # int(1/rate_2)
+    rl = S.real("risk_limit", lo_strict=0, hi=Fraction(1, 2))
+    atype = S.choose("audit_type", ["CARD_COMPARISON", "ONEAUDIT"])
+    con = mk_contest(I, id="con", cards=N, candidates=["A", "B"], winner=["A"], audit_type=atype, risk_limit=rl)
+    calls = []
+    ret = S.integer("estimate", lo=1)
+
+    def sample_size(I_, a, k):
+        calls.append((a[0], dict(k)))
+        return ret
+
+    NM = I.get("shangrla.core.NonnegMean", "NonnegMean")
+    test = Obj(NM, {"N": N, "u": XR.const(1), "sample_size": Builtin("abstract_sample_size", sample_size)})
+    assorter = abstract_assorter(S, I, con, u_a, [])
+    asn = Obj(I.get(MOD, "Assertion"), {"contest": con, "assorter": assorter, "margin": v, "test": test, "winner": "A", "loser": "B",
+                                        "sample_size": None})
+    # rates whose reciprocals truncate to the symbolic steps: rate = 1/step exactly (int(1/(1/s)) = s in the exact-real model)
+    r1 = xdiv_np(ONE, XR.const(s1)) if variant[0] in ("both", "rate1") else None
+    r2 = xdiv_np(ONE, XR.const(s2)) if variant[0] in ("both", "rate2") else None
+    if r1 is not None:
+        r1.npk = False
+    if r2 is not None:
+        r2.npk = False
+    kw = {"rate_1": r1 if r1 is not None else XR.const(0), "rate_2": r2 if r2 is not None else XR.const(0)}
+    out, exc = guard(S, I, lambda: I.call(I.getattr(asn, "find_sample_size"), [], kw))
+    if exc:
+        return
+    S.holds("the test's estimator is called exactly once", len(calls) == 1)
+    if len(calls) != 1:
+        return
+    x, kws = calls[0]
+    S.holds("returns and records the test's estimate", band(bterm(I.equal(out, ret)), bterm(I.equal(asn.attrs["sample_size"], ret))))
+    S.holds("delegates with the contest's own risk limit", kws.get("alpha") is rl)
+    S.holds("one hypothetical value per card of the population", icmp("==", x.length, N))
+    den = xsub(XR.const(2), xdiv_np(v, u_a))
+    big = xdiv_np(ONE, den)
+    small = xdiv_np(xsub(ONE, xdiv_np(HALF, u_a)), den)
+    c = ctx()
+    i = z3.Int(c.fresh("i"))
+    c.assume(z3.And(i >= 0, i < zi(iterm(N))))
+    two = (i % zi(iterm(s2)) == 0) if r2 is not None else False
+    one_ = (i % zi(iterm(s1)) == 0) if r1 is not None else False
+    exp = xite(two, ZERO, xite(one_, small, big))
+    S.eq("x[i] = 0 at multiples of int(1/rate_2), else the one-vote overstatement value at multiples of int(1/rate_1), else the error-free value",
+         x.at(i), exp)
